@@ -339,6 +339,10 @@ func (w *SrvWorld) Start() {
 			}
 			if k == 1 {
 				rag = &turn.RelayAddressGeneratorStatic{RelayAddress: w.Gen.IP4, Address: w.Gen.IP4.String(), Net: tr}
+			} else if k == 100 {
+				// one port: whoever allocates next gets the relayed address that was just given back
+				rag = &turn.RelayAddressGeneratorPortRange{RelayAddress: w.Gen.IP4, Address: w.Gen.IP4.String(), Net: tr,
+					MinPort: 50000, MaxPort: 50000, MaxRetries: 3}
 			} else {
 				rag = &turn.RelayAddressGeneratorPortRange{RelayAddress: w.Gen.IP4, Address: w.Gen.IP4.String(), Net: tr,
 					MinPort: 50000, MaxPort: uint16(50000 + k), MaxRetries: 10}
